@@ -81,11 +81,77 @@ func run(c *props.Ctx) {
 		}
 	}
 
+	// The decode side = what the decoder entry points can reach (static callees, function literals,
+	// methods of the scoped packages called through interfaces). Callers of the entry points — the
+	// node-graph adapters such as ply.ReadNodeData.Process, which deliberately maps unreadable input to
+	// an empty cloud — are not decoders and are outside the property's observation points.
+	reach := map[*ssa.Function]bool{}
+	{
+		byName := map[string][]*ssa.Function{}
+		for _, fn := range a.fns {
+			if fn.Signature.Recv() != nil {
+				byName[fn.Name()] = append(byName[fn.Name()], fn)
+			}
+		}
+		var work []*ssa.Function
+		for _, an := range [][2]string{{"formats/ply", "ReadMesh"}, {"formats/ply", "MeshReader.Read"}, {"formats/ply", "ReadHeader"},
+			{"formats/stl", "Read"}, {"formats/stl", "ReadMesh"}, {"formats/spz", "Read"}, {"formats/splat", "Read"}, {"formats/pts", "ReadPointCloud"}} {
+			if f := c.P.Func(an[0], an[1]); f != nil {
+				work = append(work, f)
+			}
+		}
+		for len(work) > 0 {
+			f := work[len(work)-1]
+			work = work[:len(work)-1]
+			if f == nil || reach[f] {
+				continue
+			}
+			reach[f] = true
+			work = append(work, f.AnonFuncs...)
+			for _, b := range f.Blocks {
+				for _, in := range b.Instrs {
+					ci, ok := in.(ssa.CallInstruction)
+					if !ok {
+						continue
+					}
+					cc := ci.Common()
+					if cc.IsInvoke() {
+						work = append(work, byName[cc.Method.Name()]...)
+						continue
+					}
+					if callee := cc.StaticCallee(); callee != nil {
+						work = append(work, callee)
+					}
+					if mc, ok := cc.Value.(*ssa.MakeClosure); ok {
+						if cf, ok := mc.Fn.(*ssa.Function); ok {
+							work = append(work, cf)
+						}
+					}
+					for _, arg := range cc.Args {
+						if mc, ok := arg.(*ssa.MakeClosure); ok {
+							if cf, ok := mc.Fn.(*ssa.Function); ok {
+								work = append(work, cf)
+							}
+						}
+						if cf, ok := arg.(*ssa.Function); ok {
+							work = append(work, cf)
+						}
+					}
+				}
+			}
+		}
+	}
+	nAbove := 0
+
 	var all []finding
 	nFns, nSites, nPrims := 0, 0, 0
 	kinds := map[string]int{}
 	for _, fn := range a.fns {
 		if !a.reading[fn] {
+			continue
+		}
+		if !reach[fn] && !c.P.IsControl(fn.Pos()) {
+			nAbove++
 			continue
 		}
 		fi := a.info(fn)
